@@ -261,6 +261,47 @@ func evalC01env(c *engine.Ctx, cs c01Case, r *engine.Run) {
 				return
 			}
 		}
+		// the message object is used again (answering with an empty list on the request object, re-sending after
+		// Payloads.Reset(), a reply built on the decoded request): the plain path carries the list it holds now
+		if len(m.P) > 0 {
+			dm := new(message.IKEMessage)
+			_ = dm.Decode(append([]byte(nil), b1...))
+			for oi, obj := range []*message.IKEMessage{lm, dm} {
+				for _, keep := range []int{1, 0} {
+					if keep > len(obj.Payloads) {
+						continue
+					}
+					if keep == 0 {
+						obj.Payloads.Reset()
+					} else {
+						obj.Payloads = obj.Payloads[:keep]
+					}
+					var b3 []byte
+					var e3, derr error
+					var got *message.IKEMessage
+					if pi := engine.Catch(func() {
+						if b3, e3 = ike.EncodeEncrypt(obj, nil, message.Role_Responder); e3 == nil {
+							got, derr = ike.DecodeDecrypt(b3, nil, nil, message.Role_Initiator)
+						}
+					}); pi != nil {
+						c.Violate(pi.Sig(), "plain path on a used message object panics: "+pi.Value, cs)
+						return
+					}
+					if e3 != nil {
+						continue
+					}
+					want := ref.Msg{H: m.H, P: m.P[:keep]}
+					if derr != nil || got == nil {
+						c.Violate("nilkey/used-message-object/decode-error", fmt.Sprintf("%s (object %d, list cut to %d): %v", cs.Name, oi, keep, derr), cs)
+						return
+					}
+					if g := univ.Project(got); g.Canon() != want.Canon() {
+						c.Violate("nilkey/used-message-object/fields", fmt.Sprintf("%s: message object %s, payload list cut to %d, sent without keys: receiver gets %s", cs.Name, []string{"encoded before", "decoded from a datagram"}[oi], keep, trs(g.Canon())), cs)
+						return
+					}
+				}
+			}
+		}
 		c.Traces++
 		return
 	}
